@@ -13,9 +13,9 @@ from .common import SIZES, adt, bv, inner, same, size_ty, sl
 from .c20 import rec_addr
 
 MP = 'structures::paging::mapper::'
-MAPPED = MP + 'mapped_page_table::MappedPageTable'
-REC = MP + 'recursive_page_table::RecursivePageTable'
-OFFSET = MP + 'offset_page_table::OffsetPageTable'
+MAPPED = MP + 'MappedPageTable'
+REC = MP + 'RecursivePageTable'
+OFFSET = MP + 'OffsetPageTable'
 TBL = 'structures::paging::page_table::PageTable'
 PTE = 'structures::paging::page_table::PageTableEntry'
 FL = 'structures::paging::page_table::PageTableFlags'
@@ -43,7 +43,7 @@ def impl_fn(impl, size, method):
     if method == 'translate':
         return '<%s as %sTranslate>::translate' % (ty, MP)
     if method in ('map_to_1gib', 'map_to_2mib', 'map_to_4kib'):
-        return {'mapped': MAPPED + "::<'a, P>::", 'recursive': REC + "::<'a>::"}[impl] + method
+        return {'mapped': MAPPED + "::<'_, P>::", 'recursive': REC + "::<'_>::"}[impl] + method
     return '<%s as %sMapper<structures::paging::page::%s>>::%s' % (ty, MP, size, method)
 
 
@@ -87,6 +87,7 @@ class MapperLab:
         """invariant=False: page-table slots hold arbitrary 64-bit values (not only all-zero or PRESENT ones)"""
         self.chk = chk
         I = chk.new_interp()
+        I.merge_diamonds = False   # the walk rules classify each path by the entry bits it tested
         self.I = I
         I.object_factory = lambda p: table_val(p.key())
         if invariant:
@@ -143,12 +144,12 @@ class MapperLab:
         P_ = {'P': {'k': 'param', 'name': 'P'}}
         try:
             if impl in ('mapped', 'offset'):
-                o = I.run(MAPPED + "::<'a, P>::new", [Ref(('obj', 'P4')), Opaque('frame-mapping')], st, P_)
+                o = I.run(MAPPED + "::<'_, P>::new", [Ref(('obj', 'P4')), Opaque('frame-mapping')], st, P_)
                 selfv = o[0].val if len(o) == 1 and o[0].kind == 'ret' else None
                 if impl == 'offset' and selfv is not None:
                     selfv = Struct(OFFSET, [selfv])
             else:
-                o = I.run(REC + "::<'a>::new_unchecked", [Ref(('obj', 'P4')), I.sym_value(adt('structures::paging::page_table::PageTableIndex'), 'r')], st)
+                o = I.run(REC + "::<'_>::new_unchecked", [Ref(('obj', 'P4')), I.sym_value(adt('structures::paging::page_table::PageTableIndex'), 'r')], st)
                 selfv = o[0].val if len(o) == 1 and o[0].kind == 'ret' else None
         except Unsupported:
             selfv = None
@@ -296,7 +297,9 @@ class MapperLab:
             pl = bit[2]
             syms = {b[1] for b in pl if isinstance(b, tuple) and b[0] == 'v'}
             lits = [b for b in pl if isinstance(b, tuple)]
-            if len(syms) == 1 and next(iter(syms)) in names and len(lits) == 64:
+            if len(syms) == 1 and next(iter(syms)) in names and len(lits) >= 56 and len({b[2] for b in lits if b[0] == 'v'}) == len(lits) and \
+                    all(b == 0 or (isinstance(b, tuple) and b[0] == 'v' and not b[3]) for b in pl):
+                # the whole entry compared with zero (bits the path already knows to be zero have dropped out of the comparison)
                 ent = names[next(iter(syms))]
                 v = (1 - val) if bit[3] else val
                 what, res = 'unused', v
